@@ -202,6 +202,8 @@ class Ruler(Generic[RuleFuncTv]):
         """
         if isinstance(names, str):
             names = [names]
+        # invalidate first: the loop below can raise after changing some flags
+        self.__cache__ = None
         result: list[str] = []
         for name in names:
             idx = self.__find__(name)
@@ -211,7 +213,6 @@ class Ruler(Generic[RuleFuncTv]):
                 raise KeyError(f"Rules manager: invalid rule name {name}")
             self.__rules__[idx].enabled = True
             result.append(name)
-        self.__cache__ = None
         return result
 
     def enableOnly(
@@ -242,6 +243,8 @@ class Ruler(Generic[RuleFuncTv]):
         """
         if isinstance(names, str):
             names = [names]
+        # invalidate first: the loop below can raise after changing some flags
+        self.__cache__ = None
         result = []
         for name in names:
             idx = self.__find__(name)
@@ -251,7 +254,6 @@ class Ruler(Generic[RuleFuncTv]):
                 raise KeyError(f"Rules manager: invalid rule name {name}")
             self.__rules__[idx].enabled = False
             result.append(name)
-        self.__cache__ = None
         return result
 
     def getRules(self, chainName: str = "") -> list[RuleFuncTv]:
